@@ -33,7 +33,8 @@ func init() {
 				// key must be v[0][j]: IndexExpr(IndexExpr(param, 0), _)
 				ok2 := false
 				if k, isIx := unparen(ix.Index).(*ast.IndexExpr); isIx {
-					if row, isRow := unparen(k.X).(*ast.IndexExpr); isRow {
+					// v[0][j], or headings[j] with the single definition headings := v[0]
+					if row, isRow := localDefs(info, fd).resolve1(info, k.X).(*ast.IndexExpr); isRow {
 						if id, isId := unparen(row.X).(*ast.Ident); isId && isParam(info, fd, id) {
 							if z, isC := constInt(info, row.Index); isC && z == 0 {
 								ok2 = true
